@@ -68,6 +68,14 @@ def main():
         print(f"HARNESS-ERROR property={pid} import failed")
         return 2
 
+    # temporary files of the code under test and of multiprocessing (manager sockets, ...) live under the checkout and go away with the
+    # run: killed helper processes cannot clean up after themselves, and nothing may accumulate in /tmp
+    import shutil
+    import tempfile
+    tmpdir = os.path.join(HERE, ".work", f"tmp-{os.getpid()}")
+    os.makedirs(tmpdir, exist_ok=True)
+    os.environ["TMPDIR"] = tmpdir
+    tempfile.tempdir = tmpdir
     try:
         if args.replay:
             return runner.replay(pid, mod, args.replay)
@@ -77,6 +85,8 @@ def main():
         traceback.print_exc()
         print(f"HARNESS-ERROR property={pid} runner crashed")
         return 2
+    finally:
+        shutil.rmtree(tmpdir, ignore_errors=True)
 
 
 if __name__ == "__main__":
